@@ -98,24 +98,30 @@ CronTzCls(p) ==
   ELSE IF p.sep \in {"sp", "sp2"} /\ p.tail = "" THEN "tz-blank-after"
   ELSE "tz-with-fields"
 
+(* day-of-month / month / day-of-week combinations, among them dates that never *)
+(* occur (the schedule search must give up, not spin)                          *)
+CronComboP == [parser : {"std", "sec"}, dom : {"29", "30", "31", "*"}, month : {"2", "feb", "4", "2,4,6,9,11", "*"},
+               dow : {"*", "0", "?"}]
+
 CronParseNext == <<"cron.Parse", "cron.Next">>
 
 -----------------------------------------------------------------------------
 (* durations and timestamps (kit time package)                                *)
-DurTok == Opt({"R", "/", "P", "T", "Y", "M", "S", "1", "-", "."},
-              {"R", "/", "P", "T", "Y", "M", "W", "D", "H", "S", "1", "-", "."})
+DurTok == Opt({"R", "/", "P", "T", "M", "S", "1", "-", "h"},
+              {"R", "/", "P", "T", "Y", "M", "W", "D", "H", "S", "1", "-", ".", "h"})
 DurTokP == [toks : UNION {[1..n -> DurTok] : n \in 0..Opt(4, 5)}]
 DurTokCls(p) == IF Len(p.toks) = 0 THEN "tokens-empty" ELSE "tokens-start-" \o p.toks[1]
 TimeEntries == <<"time.ParseISO8601Duration", "time.ParseDuration", "time.ParseTime">>
 DurTokEntries(p) == IF Len(p.toks) <= Opt(3, 4) THEN TimeEntries ELSE <<"time.ParseISO8601Duration">>
 
 (* the valid duration R5/P1Y2M1W3DT4H5M6S = 11 components                     *)
-(* <<R5, /, P, 1Y, 2M, 1W, 3D, T, 4H, 5M, 6S>> with one (two) mutation(s) at   *)
+(* <<R5, /, P, 1Y, 2M, 1W, 3D, T, 4H, 5M, 6S>> (rep; norep: without the first  *)
+(* two, positions past the end are no-ops) with one (two) mutation(s) at       *)
 (* a component: drop, dup(licate), nonum (number removed), huge (number ->     *)
 (* 99999999999999999999), neg, frac (1.5), swap (with the next), lower (case), *)
 (* space (before it)                                                           *)
 DurMut == {"none", "drop", "dup", "nonum", "huge", "neg", "frac", "swap", "lower", "space"}
-DurStructP == [op : DurMut, at : 1..11, op2 : Opt({"none"}, DurMut), at2 : Opt({1}, 1..11)]
+DurStructP == [rep : {"rep", "norep"}, op : DurMut, at : 1..11, op2 : Opt({"none"}, DurMut), at2 : Opt({1}, 1..11)]
 DurStructCls(p) == "iso-" \o p.op \o (IF p.op2 = "none" THEN "" ELSE "+" \o p.op2)
 
 (* RFC 3339 timestamps as date sep time zone; sep sp = " ", none = ""          *)
@@ -136,8 +142,8 @@ KwWrapCls(p) == IF p.len % 8 = 0 THEN "len-aligned" ELSE "len-unaligned"
 
 (* last: value of the final byte(s): zero, one, size, size+1, ff, or a valid   *)
 (* padding run                                                                 *)
-PadP == [len : L64, size : {-1, 0, 1, 2, 8, 15, 16, 17, 32, 255, 256, 257, 65536},
-         last : {"zero", "one", "size", "size+1", "ff", "valid"}]
+PadP == [len : L64, size : Opt({-1, 0, 1, 2, 8, 16, 17, 255, 256}, {-1, 0, 1, 2, 8, 15, 16, 17, 32, 255, 256, 257, 65536}),
+         last : Opt({"zero", "size", "size+1", "valid"}, {"zero", "one", "size", "size+1", "ff", "valid"})]
 PadCls(p) == IF p.size \in 2..255 THEN "block-size-valid" ELSE "block-size-invalid"
 
 Ctors == {"AESCBC128SHA256", "AESCBC192SHA384", "AESCBC256SHA384", "AESCBC256SHA512"}
@@ -193,8 +199,8 @@ RsaSigAlgs == {"RS256", "RS384", "RS512", "PS256", "PS384", "PS512"}
 EcSigAlgs == {"ES256", "ES384", "ES512"}
 OtherAsymAlgs == {"ECDH-ES", "ECDH-ES+A256KW", "HS256", "", "foo"}
 AsymAlgs == RsaEncAlgs \cup RsaSigAlgs \cup EcSigAlgs \cup {"EdDSA"} \cup OtherAsymAlgs
-RsaKeys == {"rsa2048", "rsa2048-pub", "rsa1024"}
-EcKeys == {"ec-p224", "ec-p256", "ec-p256-pub", "ec-p384", "ec-p521"}
+RsaKeys == Opt({"rsa2048", "rsa2048-pub"}, {"rsa2048", "rsa2048-pub", "rsa1024"})
+EcKeys == Opt({"ec-p256", "ec-p256-pub", "ec-p521"}, {"ec-p256", "ec-p256-pub", "ec-p384", "ec-p521"})   \* (jwx has no P-224)
 EdKeys == {"ed25519", "ed25519-pub"}
 KeyIds == RsaKeys \cup EcKeys \cup EdKeys \cup {"x25519", "oct32"}
 KeyKind(k) == IF k \in RsaKeys THEN "rsa" ELSE IF k \in EcKeys THEN "ec" ELSE IF k \in EdKeys THEN "ed25519" ELSE k
@@ -241,7 +247,7 @@ NaturalLabel(enc) == CASE enc = "pkcs8" -> "PRIVATE KEY" [] enc = "pkcs1" -> "RS
                        [] OTHER -> "RSA PUBLIC KEY"
 KeyBlobCls(p) ==
   \* a PKCS#8 private key that is not a crypto.Signer (X25519 is the only such type Go can marshal)
-  IF p.kt = "x25519" /\ p.enc = "pkcs8" /\ p.cut = "full" THEN "non-signer"
+  IF p.kt = "x25519" /\ p.enc = "pkcs8" THEN "non-signer"
   ELSE IF p.cut # "full" THEN "key-" \o p.wrap \o "-cut"
   ELSE IF p.wrap = "pem" /\ p.label # NaturalLabel(p.enc) THEN "key-pem-label-mismatch"
   ELSE "key-" \o p.wrap \o "-well-formed"
@@ -255,7 +261,7 @@ KeyBlobEntries(p) ==
 (* "-----", jwk (a valid oct JWK), pem (a valid PKCS#8 PEM), b64 (base64 of 32 *)
 (* bytes), bin (32 raw bytes 0x80..)                                           *)
 KeyWsP == [n : 0..40, ws : {"sp", "nl", "tab", "crlf"},
-           then : {"none", "brace", "dashes", "jwk", "pem", "b64", "bin"},
+           then : Opt({"none", "brace", "dashes", "pem", "b64"}, {"none", "brace", "dashes", "jwk", "pem", "b64", "bin"}),
            ct : Opt({"", "application/json", "application/x-pem-file"}, ContentTypes)]
 KeyWsCls(p) == IF p.then = "none" THEN "all-whitespace" ELSE "whitespace-prefixed"
 KeyWsEntries == <<"crypto.ParseKey", "crypto.SerializeKey", "pem.DecodePEMPrivateKey", "utils.IsValidPEM">>
@@ -266,16 +272,19 @@ KeyRawP == [n : 0..65, fill : {"zero", "A", "eq", "brace", "dash", "Anl", "ff", 
             ct : {"", "text/plain", "application/json", "application/x-pem-file"}]
 
 (* JWKs with one member removed / retyped.  base: a valid JWK of that kind.    *)
-(* mut: drop; empty ""; null; number 5; bool; array []; object {}; short "AA"; *)
+(* mut: drop; empty ""; json-null; number 5; bool; array []; object {}; short "AA"; *)
 (* badb64 "!!!"; long (600 bytes base64url); other-valid (the value another    *)
 (* valid key would have there: a different kty / curve / coordinate)           *)
 JwkBases == {"rsa-priv", "rsa-pub", "ec-priv", "ec-pub", "ed-priv", "ed-pub", "x25519-priv", "oct"}
 JwkFields == {"kty", "crv", "n", "e", "d", "p", "q", "dp", "dq", "qi", "x", "y", "k", "alg", "use",
               "key_ops", "kid", "x5c"}
-JwkMuts == {"none", "drop", "empty", "null", "number", "bool", "array", "object", "short", "badb64",
+JwkMuts == {"none", "drop", "empty", "json-null", "number", "bool", "array", "object", "short", "badb64",
             "long", "other-valid"}
 JwkMutP == {p \in [base : JwkBases, field : JwkFields, mut : JwkMuts] : p.mut = "none" => p.field = "kty"}
-JwkMutCls(p) == "jwk-" \o p.base \o ":" \o p.mut \o (IF p.mut = "none" THEN "" ELSE ":" \o p.field)
+JwkKty(b) == CASE b \in {"rsa-priv", "rsa-pub"} -> "rsa" [] b \in {"ec-priv", "ec-pub"} -> "ec"
+               [] b \in {"ed-priv", "ed-pub"} -> "okp-ed25519" [] b = "x25519-priv" -> "okp-x25519" [] OTHER -> "oct"
+(* class: key type and the member that was mutated *)
+JwkMutCls(p) == "jwk-" \o JwkKty(p.base) \o ":" \o (IF p.mut = "none" THEN "intact" ELSE p.field)
 (* a parsed key is then used with the operations natural for its kty           *)
 JwkEntries == <<"crypto.ParseKey", "crypto.SerializeKey", "crypto.Encrypt", "crypto.Decrypt",
                 "crypto.SignPrivateKey", "crypto.VerifyPublicKey">>
@@ -312,7 +321,8 @@ RuneP == [r : RuneTok]
 (* header = 3 lines (scheme name, manifest, MAC), each kept or mutated:        *)
 (* drop, dup, empty, long600, long70k (padded with spaces), crlf (line ends in *)
 (* \r\n), nonl (its newline removed), lead-space                               *)
-LineMut == {"keep", "drop", "dup", "empty", "long600", "long70k", "crlf", "nonl", "lead-space"}
+LineMut == Opt({"keep", "drop", "dup", "empty", "long70k", "crlf", "nonl"},
+              {"keep", "drop", "dup", "empty", "long600", "long70k", "crlf", "nonl", "lead-space"})
 (* payload after the header: none; seg (one valid segment); seg-minus1;        *)
 (* seg-plus1; zeros15/16/17; twoseg (64KiB+16 then a short last one)           *)
 PayloadTok == {"none", "seg", "seg-minus1", "seg-plus1", "zeros15", "zeros16", "zeros17", "twoseg"}
@@ -376,7 +386,7 @@ MdFields == {"string", "int", "uint8", "bool", "boolptr", "float64", "duration",
 (* values: s:<text> a string; int 7; float 1.5; bool true; nil; nilptr         *)
 (* a nil pointer-to-string; map (nested map); slice ([]any{"a", 1})            *)
 MdStrVals == {"s:", "s:1", "s:-1", "s:true", "s:yes", "s:abc", "s:1s", "s:1h1", "s:9999999999999999999",
-              "s:1.5", "s:1Ki", "s:1Gi", "s:1e999", "s:1,2", "s:,", "s:1s,2s", "s:1s, ,x", "s:null", "s:P1D",
+              "s:1.5", "s:1Ki", "s:1Gi", "s:1e999", "s:1,2", "s:,", "s:1s,2s", "s:1s, ,x", "s:Null", "s:P1D",
               "s:fullwidth1", "s:-", "s:1e-999Ei"}
 MdOtherVals == {"int", "float", "bool", "nil", "nilptr", "map", "slice"}
 (* key: exact; upper (upper-cased); alias (the field's alias name);            *)
@@ -429,7 +439,7 @@ CfgTreeP == [tree : TreeTok, prefix : PrefixTok]
 
 -----------------------------------------------------------------------------
 (* the families *)
-Families == {"cron-term", "cron-list", "cron-sep", "cron-count", "cron-desc", "cron-tz",
+Families == {"cron-term", "cron-list", "cron-sep", "cron-count", "cron-desc", "cron-tz", "cron-combo",
              "dur-tok", "dur-struct", "stamp",
              "kw-unwrap", "kw-wrap", "pad", "aead-new", "aead-seal", "aead-open",
              "sym-dec", "sym-enc", "asym",
@@ -441,6 +451,7 @@ Families == {"cron-term", "cron-list", "cron-sep", "cron-count", "cron-desc", "c
 Params(f) ==
   CASE f = "cron-term" -> CronTermP [] f = "cron-list" -> CronListP [] f = "cron-sep" -> CronSepP
     [] f = "cron-count" -> CronCountP [] f = "cron-desc" -> CronDescP [] f = "cron-tz" -> CronTzP
+    [] f = "cron-combo" -> CronComboP
     [] f = "dur-tok" -> DurTokP [] f = "dur-struct" -> DurStructP [] f = "stamp" -> StampP
     [] f = "kw-unwrap" -> KwUnwrapP [] f = "kw-wrap" -> KwWrapP [] f = "pad" -> PadP
     [] f = "aead-new" -> AeadNewP [] f = "aead-seal" -> AeadSealP [] f = "aead-open" -> AeadOpenP
@@ -457,7 +468,7 @@ Cls(f, p) ==
   CASE f = "cron-term" -> CronTermCls(p) [] f = "cron-list" -> CronListCls(p)
     [] f = "cron-sep" -> "separators-only"
     [] f = "cron-count" -> (IF TwoOptionals(p.opts) THEN "two-optionals" ELSE "field-count")
-    [] f = "cron-desc" -> "descriptor" [] f = "cron-tz" -> CronTzCls(p)
+    [] f = "cron-desc" -> "descriptor" [] f = "cron-tz" -> CronTzCls(p) [] f = "cron-combo" -> "day-month-combination"
     [] f = "dur-tok" -> DurTokCls(p) [] f = "dur-struct" -> DurStructCls(p) [] f = "stamp" -> "timestamp"
     [] f = "kw-unwrap" -> KwUnwrapCls(p) [] f = "kw-wrap" -> KwWrapCls(p) [] f = "pad" -> PadCls(p)
     [] f = "aead-new" -> "key-length" [] f = "aead-seal" -> AeadSealCls(p) [] f = "aead-open" -> AeadOpenCls(p)
@@ -472,7 +483,7 @@ Cls(f, p) ==
     [] f = "cfg-decode" -> CfgDecodeCls(p) [] f = "cfg-tree" -> "tree"
 
 Entries(f, p) ==
-  CASE f \in {"cron-term", "cron-list", "cron-sep", "cron-desc", "cron-tz"} -> CronParseNext
+  CASE f \in {"cron-term", "cron-list", "cron-sep", "cron-desc", "cron-tz", "cron-combo"} -> CronParseNext
     [] f = "cron-count" -> (IF TwoOptionals(p.opts) THEN <<"cron.NewParser">> ELSE CronParseNext)
     [] f = "dur-tok" -> DurTokEntries(p) [] f = "dur-struct" -> TimeEntries [] f = "stamp" -> <<"time.ParseTime">>
     [] f = "kw-unwrap" -> <<"aeskw.Unwrap">> [] f = "kw-wrap" -> <<"aeskw.Wrap">>
